@@ -357,3 +357,92 @@ Example tup_roundtrip_ex :
   t_ins (tup_decode (tup_encode [([97], [1; 2; 3]); ([], []); ([255; 0], repeat 7 300)])) =
     [([97], [1; 2; 3]); ([], []); ([255; 0], repeat 7 300)].
 Proof. split; [split; [cbn; lia|repeat constructor; cbn; lia]|vm_compute; reflexivity]. Qed.
+
+(* ================= inflated counts and lengths are rejected (C06) ================= *)
+Lemma dec_entry_nil vreq : dec_entry true vreq [] = EErr 0.
+Proof. reflexivity. Qed.
+
+(* a map count larger than the number of entries that follow: error after exactly the entries present *)
+Theorem tup_inflated_count m (extra : nat) : Forall entry_ok m -> (0 < extra)%nat -> N.of_nat (length m + extra) < 2147483648 ->
+  let o := tup_decode (head tMAP 0 ++ w_int32 (wrap32 (Z.of_nat (length m + extra))) 0 ++ flat_map enc_entry m) in
+  t_stat o = TSErr /\ t_ins o = m.
+Proof.
+  intros Hok Hx Hl. unfold tup_decode, tup_decode_gen, skip_to.
+  rewrite fuel_for_S. rewrite seek_first by reflexivity. change (tMAP =? tMAP) with true. cbv iota.
+  rewrite read_count_field by assumption.
+  pose proof (dec_loop_entries true true [] m (S (length (flat_map enc_entry m))) (Z.of_nat extra) Hok) as H.
+  rewrite app_nil_r in H. rewrite Nat2Z.inj_add. rewrite H; [|pose proof (entries_length m); lia|lia|right; pose proof (entries_length m); lia].
+  cbv zeta. destruct (S (length (flat_map enc_entry m)) - length m)%nat as [|f] eqn:E; [pose proof (entries_length m); lia|].
+  cbn [dec_loop]. destruct (Z.of_nat extra <=? 0)%Z eqn:E2; [lia|]. rewrite dec_entry_nil.
+  cbn [t_stat t_ins]. split; [reflexivity|apply app_nil_r].
+Qed.
+
+(* a buffer length larger than the bytes that remain (here: the last entry's length inflated): error, and only
+   the complete entries before it have been added *)
+Theorem tup_inflated_buffer m k v (extra : nat) : Forall entry_ok m -> len k < 4294967296 -> (0 < extra)%nat ->
+  N.of_nat (S (length m)) < 2147483648 -> N.of_nat (length v + extra) < 2147483648 ->
+  let o := tup_decode (head tMAP 0 ++ w_int32 (wrap32 (Z.of_nat (S (length m)))) 0 ++ flat_map enc_entry m ++
+                       w_string k 0 ++ head tSIMPLE 1 ++ head tBYTE 0 ++ w_int32 (wrap32 (Z.of_nat (length v + extra))) 0 ++ v) in
+  t_stat o = TSErr /\ t_ins o = m.
+Proof.
+  intros Hok Hk Hx Hl Hv. unfold tup_decode, tup_decode_gen, skip_to.
+  rewrite fuel_for_S. rewrite seek_first by reflexivity. change (tMAP =? tMAP) with true. cbv iota.
+  rewrite read_count_field by assumption.
+  set (last := w_string k 0 ++ _).
+  pose proof (dec_loop_entries true true last m (S (length (flat_map enc_entry m ++ last))) 1%Z Hok) as H.
+  replace (Z.of_nat (S (length m))) with (Z.of_nat (length m) + 1)%Z by lia.
+  rewrite H; [|rewrite app_length; pose proof (entries_length m); lia|lia|right; rewrite app_length; pose proof (entries_length m); lia].
+  cbv zeta. destruct (S (length (flat_map enc_entry m ++ last)) - length m)%nat as [|f] eqn:E;
+    [rewrite app_length in E; pose proof (entries_length m); lia|].
+  cbn [dec_loop]. change (1 <=? 0)%Z with false. cbv iota.
+  assert (Hd : dec_entry true true last = EErr (len k)).
+  { subst last. unfold dec_entry. rewrite fuel_for_S. rewrite roundtrip_string by (unfold len in Hk; first [reflexivity | assumption]).
+    unfold dec_value. rewrite fuel_for_S. rewrite seek_first by reflexivity. change (tSIMPLE =? tSIMPLE) with true. cbv iota.
+    unfold skip_to. rewrite fuel_for_S. rewrite seek_first by reflexivity. change (tBYTE =? tBYTE) with true. cbv iota.
+    rewrite read_count_field by assumption. unfold read_bytes.
+    destruct ((Z.of_nat (length v + extra) <? 0)%Z || (Z.of_nat (length v) <? Z.of_nat (length v + extra))%Z) eqn:E3; [reflexivity|lia]. }
+  rewrite Hd. cbn [t_stat t_ins]. split; [reflexivity|apply app_nil_r].
+Qed.
+Print Assumptions tup_inflated_count.
+Print Assumptions tup_inflated_buffer.
+
+(* ================= the defects of the pinned snapshot, on the same model ================= *)
+(* key optional (before b18cffe): at the end of the input every iteration is a no-op, so the loop runs as often as
+   the count says - for every count; the steps are not bounded by the input *)
+Lemma pinned_loop_spins : forall k : nat,
+  dec_loop false false k (Z.of_nat k) [] = mk_tout TSOk [] [] (N.of_nat k) 0.
+Proof.
+  induction k as [|k IH]; [reflexivity|]. cbn [dec_loop].
+  destruct (Z.of_nat (S k) <=? 0)%Z eqn:E; [lia|].
+  change (dec_entry false false []) with (ESkip [] []). cbv iota.
+  replace (Z.of_nat (S k) - 1)%Z with (Z.of_nat k) by lia. rewrite IH.
+  cbv zeta. cbn [t_stat t_ins t_rest t_iter t_alloc]. unfold len. cbn [length]. f_equal; lia.
+Qed.
+
+Theorem pinned_decode_spins (n : nat) : N.of_nat n < 2147483648 ->
+  let bs := head tMAP 0 ++ w_int32 (wrap32 (Z.of_nat n)) 0 in
+  (length bs <= 6)%nat /\ tup_decode_pinned bs = mk_tout TSOk [] [] (N.of_nat n) 0.
+Proof.
+  intros Hn. split.
+  - rewrite count_field by assumption. unfold w_len. cbn [head N.ltb N.compare app length].
+    destruct (_ =? 0); [cbn; lia|]. destruct (_ <? 128); [cbn; lia|]. destruct (_ <? 32768); cbn; lia.
+  - unfold tup_decode_pinned, tup_decode_gen, skip_to. rewrite fuel_for_S.
+    rewrite <- (app_nil_r (w_int32 _ 0)). rewrite seek_first by reflexivity. change (tMAP =? tMAP) with true. cbv iota.
+    rewrite read_count_field by assumption. rewrite Nat2Z.id. apply pinned_loop_spins.
+Qed.
+(* the totality-with-linear-steps statement is false of the pinned decoder: 6 bytes, 1 000 000 iterations, no error *)
+Example pinned_total_refuted :
+  exists bs, let o := tup_decode_pinned bs in nlen bs = 6 /\ t_stat o = TSOk /\ t_iter o = 1000000.
+Proof. exists [8; 2; 0; 15; 66; 64]. vm_compute. repeat split. Qed.
+(* the repaired decoder on the same input *)
+Example repaired_rejects_count_bomb : t_stat (tup_decode [8; 2; 127; 255; 255; 255]) = TSErr /\ t_iter (tup_decode [8; 2; 127; 255; 255; 255]) = 1.
+Proof. vm_compute. split; reflexivity. Qed.
+
+(* value optional (before 5664fef): an encoding cut right after the last key decodes "successfully" to a set
+   without that entry *)
+Example value_optional_accepts_truncated :
+  let full := tup_encode [([97], [120])] in
+  let cut := firstn 6 full in
+  (length cut < length full)%nat /\ t_stat (tup_decode_b18cffe cut) = TSOk /\ t_ins (tup_decode_b18cffe cut) = [] /\
+  t_stat (tup_decode cut) = TSErr.
+Proof. vm_compute. repeat split; lia. Qed.
